@@ -53,9 +53,10 @@ type c12HermCase struct {
 	Begin     []c12HermOp         `json:"begin,omitempty"`
 	Rule      []c12HermOp         `json:"rule,omitempty"`
 	End       []c12HermOp         `json:"end,omitempty"`
-	Answers   map[string][]string `json:"answers"` // symbolic path -> answer kind of the k-th open (the last repeats); absent: handle
-	Pre       []string            `json:"pre"`     // symbolic paths whose scratch file exists before the run
-	Envs      []string            `json:"envs"`    // host environments; the first is the reference
+	Answers   map[string][]string `json:"answers"`         // symbolic path -> answer kind of the k-th open (the last repeats); absent: handle
+	Pre       []string            `json:"pre"`             // symbolic paths whose scratch file exists before the run
+	Envs      []string            `json:"envs"`            // host environments; the first is the reference
+	Entry     string              `json:"entry,omitempty"` // public entry point, see c12Entries ("" = interp.ExecProgram); the same in every environment
 }
 
 var (
@@ -462,7 +463,7 @@ func c12HermRunEnv(cs *c12HermCase, env string) (obs c12HermObs) {
 	}
 	before := c12HermList(host)
 	trip := c12TripStart(d)
-	res := vh.ExecProg(prog, cfg)
+	res := c12ExecFresh(cs.Entry, prog, cfg)
 	if trip != nil {
 		obs.Trip, obs.TripOK = trip.stop(), true
 	}
@@ -619,6 +620,9 @@ func c12HermCorpus() []c12HermCase {
 func c12HermRandom(c *vh.Ctx) c12HermCase {
 	r := c.Rng
 	cs := c12HermCase{Stream: "herm", Shape: "random", StdinFile: r.Intn(2) == 0, Answers: map[string][]string{}}
+	if r.Intn(2) == 0 {
+		cs.Entry = c12Entries[r.Intn(len(c12Entries))]
+	}
 	if r.Intn(3) == 0 {
 		m := r.Intn(8)
 		cs.NoExec, cs.NoWrites, cs.NoReads = m&1 != 0, m&2 != 0, m&4 != 0
@@ -700,6 +704,11 @@ func runC12Herm(c *vh.Ctx, replay *c12HermCase) {
 		cases = []c12HermCase{*replay}
 	} else {
 		cases = c12HermCorpus()
+		for i := range cases {
+			if i%3 == 0 { // every third systematic case through one of the Interpreter entry points, rotating
+				cases[i].Entry = c12Entries[(i/3+i/21)%len(c12Entries)]
+			}
+		}
 		nCorpus := len(cases)
 		for i, n := 0, c.N(300, 6000); i < n; i++ {
 			cases = append(cases, c12HermRandom(c))
@@ -717,6 +726,7 @@ func runC12Herm(c *vh.Ctx, replay *c12HermCase) {
 		c.Eval(string(key), len(obss[i][0].Canon.Hook) > 0)
 		c.OracleCase()
 		c.Hit("stream:herm")
+		c.Hit("herm:entry:" + map[bool]string{true: "execprogram", false: cs.Entry}[cs.Entry == ""])
 		c.Hit("herm:shape:" + strings.SplitN(cs.Shape, "@", 2)[0])
 		if p := strings.SplitN(cs.Shape, "@", 2); len(p) == 2 {
 			c.Hit("herm:place:" + p[1])
